@@ -580,17 +580,20 @@ class Rooms(Combinator[RoomsType]):
             nonlocal height
             nonlocal width
 
-            if room_id[y][x] != -1:
-                return
-            room_id[y][x] = id
-            if y > 0 and not horizontal[y - 1][x]:
-                dfs(y - 1, x, id)
-            if y < height - 1 and not horizontal[y][x]:
-                dfs(y + 1, x, id)
-            if x > 0 and not vertical[y][x - 1]:
-                dfs(y, x - 1, id)
-            if x < width - 1 and not vertical[y][x]:
-                dfs(y, x + 1, id)
+            stack = [(y, x)]
+            while stack:
+                y, x = stack.pop()
+                if room_id[y][x] != -1:
+                    continue
+                room_id[y][x] = id
+                if y > 0 and not horizontal[y - 1][x]:
+                    stack.append((y - 1, x))
+                if y < height - 1 and not horizontal[y][x]:
+                    stack.append((y + 1, x))
+                if x > 0 and not vertical[y][x - 1]:
+                    stack.append((y, x - 1))
+                if x < width - 1 and not vertical[y][x]:
+                    stack.append((y, x + 1))
 
         last_id = 0
         for y in range(height):
